@@ -300,6 +300,10 @@ func (e *Engine) valueEq(x, y Value) *Term {
 		case nil:
 			return st.Bool(a == nil)
 		}
+	case Opaque:
+		if b, ok := y.(Opaque); ok {
+			return st.Bool(a.V == b.V) // comparable library values (netip.Addr, Prefix, AddrPort)
+		}
 	case Slice:
 		if y == nil {
 			return st.Bool(a.Nil)
